@@ -7,7 +7,7 @@ package vh
 //	int   M in "", int8..int64, uint..uint64, float32, float64, named
 //	str   M in "", named, bytes, stringer
 //	list  M in "", []int, []string, []float64, [3]int, []map, named[]iface, named[]string, named[]int
-//	hash  M in "", map[string]int, map[string]string, map[int]string, map[int64]string, map[uint64]string, map[iface], map[mixed], struct, ptrstruct, nilptrstruct, nilptrmap, outer, meth, ptrmeth, namedmap
+//	hash  M in "", map[string]int, map[string]string, map[int]string, map[int64]string, map[uint64]string, map[iface], map[mixed], map[mixed2], struct, ptrstruct, nilptrstruct, nilptrmap, outer, meth, ptrmeth, namedmap
 //	ptr   pointer to A[0]      time  I = unix seconds (UTC)
 
 import (
@@ -164,6 +164,36 @@ func zooGo(e *E, variant int) interface{} {
 				out[i] = float64(a.I) / 2
 			}
 			return out
+		case "[2]iface":
+			var out [2]interface{}
+			for i := 0; i < 2 && i < len(e.A); i++ {
+				out[i] = zooGo(e.A[i], variant)
+			}
+			return out
+		case "[]error":
+			out := make([]error, len(e.A))
+			for i, a := range e.A {
+				out[i] = fmt.Errorf("err-%s", a.S)
+			}
+			return out
+		case "[]stringer":
+			out := make([]fmt.Stringer, len(e.A))
+			for i, a := range e.A {
+				out[i] = zStringer{a.S}
+			}
+			return out
+		case "[][]int":
+			out := make([][]int, len(e.A))
+			for i, a := range e.A {
+				out[i] = []int{int(a.I), int(a.I) + 1}
+			}
+			return out
+		case "[]map":
+			out := make([]map[string]int, len(e.A))
+			for i, a := range e.A {
+				out[i] = map[string]int{"k": int(a.I)}
+			}
+			return out
 		case "[3]int":
 			var out [3]int
 			for i := 0; i < 3 && i < len(e.A); i++ {
@@ -246,6 +276,26 @@ func zooGo(e *E, variant int) interface{} {
 					k = i%2 == 1
 				default:
 					k = uint8(i)
+				}
+				out[k] = zooGo(e.A[i], variant)
+			}
+			return out
+		case "map[mixed2]":
+			// interface-keyed map with integer keys whose numeric and printed order disagree (9 < 54,
+			// "54" < "9") and string keys that print between them ("6..."): comparing numbers by value
+			// and everything else by printed form is not an order on such keys
+			out := map[interface{}]interface{}{}
+			for _, i := range idx {
+				var k interface{}
+				switch i % 4 {
+				case 0:
+					k = []int{9, 54, 100, 8}[(i/4)%4]
+				case 1:
+					k = []string{"6", "1", "77", "10"}[(i/4)%4] + e.Ks[i]
+				case 2:
+					k = []int64{700, 71, 7, 70}[(i/4)%4]
+				default:
+					k = []string{"70", "8", "99", "5"}[(i/4)%4] + e.Ks[i]
 				}
 				out[k] = zooGo(e.A[i], variant)
 			}
